@@ -23,6 +23,11 @@ Lemma snap_cells sl s : ts_cells (sn_text sl (snap_of s)) = cells (get_text sl s
 Proof. rewrite snap_text. apply tsnap_cells. Qed.
 Lemma snap_avail sl s : ts_avail (sn_text sl (snap_of s)) = string_available (get_text sl s).
 Proof. rewrite snap_text. reflexivity. Qed.
+Lemma snap_cells_avail sl s : cells_avail (sn_text sl (snap_of s)) = string_available (get_text sl s).
+Proof.
+  rewrite snap_text. unfold cells_avail, tsnap_of, string_available. cbn [ts_cells].
+  induction (get_text sl s) as [|c r IH]; [reflexivity|]. cbn [map existsb snd]. rewrite IH. reflexivity.
+Qed.
 Lemma snap_corr s t k : cfg_corr (snap_of s) t k = corr s t k.
 Proof. destruct t, k; reflexivity. Qed.
 Lemma snap_prog s t : cfg_prog (snap_of s) t = prog s t.
